@@ -2,26 +2,26 @@
 import warnings
 import numpy as np
 
-def filter_len(fs, f_range, filter_kwargs):
+def filter_len(fs, f_range, filter_kwargs, pass_type='bandpass'):
     from neurodsp.filt.fir import compute_filter_length
     fk = filter_kwargs or {}
     n_seconds = fk.get('n_seconds', None)
     n_cycles = fk.get('n_cycles', None)
     if n_cycles is None and n_seconds is None:
         n_cycles = 3
-    return compute_filter_length(fs, 'bandpass', f_range[0], f_range[1], n_seconds=n_seconds, n_cycles=n_cycles)
+    return compute_filter_length(fs, pass_type, f_range[0], f_range[1], n_seconds=n_seconds, n_cycles=n_cycles)
 
-def pad_len(fs, f_range, filter_kwargs, pad=True):
-    return int(np.ceil(filter_len(fs, f_range, filter_kwargs) / 2)) if pad else 0
+def pad_len(fs, f_range, filter_kwargs, pad=True, pass_type='bandpass'):
+    return int(np.ceil(filter_len(fs, f_range, filter_kwargs, pass_type) / 2)) if pad else 0
 
-def filt_sign(sig, fs, f_range, filter_kwargs, pad=True):
+def filt_sign(sig, fs, f_range, filter_kwargs, pad=True, pass_type='bandpass'):
     """(pad, b) with b = sign pattern (> 0) of the band-passed zero-padded signal"""
     from neurodsp.filt import filter_signal
-    p = pad_len(fs, f_range, filter_kwargs, pad)
+    p = pad_len(fs, f_range, filter_kwargs, pad, pass_type)
     sp = np.pad(np.asarray(sig, dtype=float), p, mode='constant')
     with warnings.catch_warnings():
         warnings.simplefilter('ignore')
-        sf = filter_signal(sp, fs, 'bandpass', f_range, remove_edges=False, **(filter_kwargs or {}))
+        sf = filter_signal(sp, fs, pass_type, f_range, remove_edges=False, **(filter_kwargs or {}))
     if np.isnan(sf).any():
         raise ValueError('filtered signal contains NaN')
     return p, (sf > 0)
